@@ -192,6 +192,43 @@ theorem match_afterCut {lv : Lv} {d cp l : Nat} {ans0 : List Term} {m m' : MS} {
     | none => exact ⟨some cp, rfl, by simp [SLD.afterCut, h2]⟩
     | some c0 => exact ⟨some c0, rfl, by simp [SLD.afterCut, h2]⟩
 
+theorem LvOK.deeper {lv : Lv} {d d' : Nat} (h : LvOK mo lv d) (hd : d ≤ d') : LvOK mo lv d' :=
+  ⟨h.nodup, h.nz, h.mono, fun e he l hl => Nat.lt_of_lt_of_le (h.below e he l hl) hd,
+    fun dN hdN => Nat.lt_of_lt_of_le (h.lo dN hdN) hd, h.above⟩
+
+/-- a call with one alternative that the VM does not make changes nothing: the cut levels in use
+    are below its depth -/
+theorem match_post {lv : Lv} {d : Nat} {ans0 : List Term} {m m' : MS} {sig : SigG Err} {r1 : SLD.Res}
+    (hok : LvOK mo lv d) (hm : Match mo tmpl max prog lv ans0 m m' sig r1) :
+    Match mo tmpl max prog lv ans0 m m' sig (post d r1) := by
+  rcases hm.stop with ⟨h1, h2, h3⟩ | ⟨c, l, h1, h2, h3, h4⟩ | ⟨h1, h2⟩ | ⟨F', c1, c2, ex, co, h1, h2⟩
+  · have e : post d r1 = ⟨r1.answers ++ [], .exhausted⟩ := by simp [post, h2]
+    rw [e]
+    exact ⟨by simpa using hm.ans, Or.inl ⟨h1, rfl, h3⟩, hm.st, hm.nvar⟩
+  · have hl : l ≠ d := by have := hok.lev_lt h3; omega
+    have e : post d r1 = { r1 with stop := .cut l } := by simp [post, h2, hl]
+    rw [e]
+    exact ⟨hm.ans, Or.inr (Or.inl ⟨c, l, h1, rfl, h3, h4⟩), hm.st, hm.nvar⟩
+  · have e : post d r1 = r1 := by
+      cases mo with
+      | none =>
+        have h2' : r1.stop = .full := h2
+        simp [post, h2']
+      | some dN =>
+        have h2' : r1.stop = .cut dN := h2
+        have hne : dN ≠ d := by have := hok.lo dN rfl; omega
+        cases r1
+        simp_all [post]
+    rw [e]; exact hm
+  · have e : post d r1 = r1 := by simp [post, h2]
+    rw [e]; exact hm
+
+theorem match_postN {lv : Lv} {ans0 : List Term} {m m' : MS} {sig : SigG Err} {r1 : SLD.Res} :
+    ∀ (j d : Nat), LvOK mo lv d → Match mo tmpl max prog lv ans0 m m' sig r1 →
+      Match mo tmpl max prog lv ans0 m m' sig (postN d j r1)
+  | 0, _, _, hm => hm
+  | j + 1, d, hok, hm => match_post hok (match_postN j (d + 1) (hok.deeper (Nat.le_succ d)) hm)
+
 end
 
 end PrologVerif.Refine
